@@ -927,18 +927,29 @@ def source_pins(repo):
                             'TorrentFileStream._get_open_file', 'TorrentFileStream._get_file_size_from_fs', 'TorrentFileStream.close',
                             'TorrentFileStream.get_piece', 'TorrentFileStream.get_piece_hash', 'TorrentFileStream.verify_piece',
                             'TorrentFileStream.get_absolute_piece_indexes', 'TorrentFileStream.get_relative_piece_indexes',
-                            'TorrentFileStream.get_file_position', 'TorrentFileStream._get_content_path', '_MissingPieces'],
+                            'TorrentFileStream.get_file_position', 'TorrentFileStream._get_content_path', '_MissingPieces',
+                            'TorrentFileStream.__init__', 'TorrentFileStream.__enter__', 'TorrentFileStream.__exit__', 'TorrentFileStream.max_piece_index',
+                            'TorrentFileStream.get_file_at_position', 'TorrentFileStream.get_piece_indexes_of_file', 'TorrentFileStream.get_files_at_byte_range',
+                            'TorrentFileStream.get_byte_range_of_file', 'TorrentFileStream.get_files_at_piece_index'],
         'torf/_generate.py': ['Worker', 'Reader', 'HasherPool', 'Collector', '_IntervaledCallback', '_TranslatingCallback', 'GenerateCallback', 'VerifyCallback'],
         'torf/_torrent.py': ['Torrent._set_files', 'Torrent.piece_size', 'Torrent.piece_size_min', 'Torrent.piece_size_max', 'Torrent.generate', 'Torrent.verify',
                              'Torrent.verify_filesize', 'Torrent.trackers', 'Torrent._trackers_changed', 'Torrent.webseeds', 'Torrent._webseeds_changed',
                              'Torrent.httpseeds', 'Torrent._httpseeds_changed', 'Torrent.path', 'Torrent.files', 'Torrent.filepaths', 'Torrent.reuse',
-                             'Torrent.partial_size', 'Torrent.magnet', 'Torrent.creation_date', 'Torrent.private', 'Torrent.size', 'Torrent.mode', 'Torrent.pieces'],
+                             'Torrent.partial_size', 'Torrent.magnet', 'Torrent.creation_date', 'Torrent.private', 'Torrent.size', 'Torrent.mode', 'Torrent.pieces',
+                             'Torrent._filepaths_changed', 'Torrent._files_changed', 'Torrent._filters_changed', 'Torrent.exclude_globs', 'Torrent.exclude_regexs',
+                             'Torrent.include_globs', 'Torrent.include_regexs', 'Torrent.metainfo', 'Torrent.name', 'Torrent.location', 'Torrent.filetree',
+                             'Torrent.infohash_base32', 'Torrent.randomize_infohash', 'Torrent.read', 'Torrent.copy', 'Torrent.__init__', 'Torrent.hashes',
+                             'Torrent.calculate_piece_size', 'Torrent.is_ready', 'Torrent.validate', 'Torrent.dump', 'Torrent.convert', 'Torrent.infohash',
+                             'Torrent.write', 'Torrent.write_stream', 'Torrent.read_stream'],
         'torf/_utils.py': ['MonitoredList', 'URL', 'URLs', 'Trackers', 'is_url', 'assert_type', 'key_exists_in_list_or_dict', 'decode_value', 'decode_list',
-                           'decode_dict', 'encode_list', 'list_files', 'filter_files', 'real_size', 'File', 'Filepath', 'Filepaths', 'Files', 'flatten'],
+                           'decode_dict', 'encode_list', 'list_files', 'filter_files', 'real_size', 'File', 'Filepath', 'Filepaths', 'Files', 'flatten',
+                           'is_non_negative', 'is_md5sum', 'is_divisible_by_16_kib', 'force_as_string', 'iterable_startswith', 'download', 'download_http',
+                           'encode_value', 'encode_dict', 'Iterable'],
         'torf/_magnet.py': ['Magnet.__str__', 'Magnet.from_string', 'Magnet.torrent', 'Magnet.get_info', 'Magnet._set_info_from_torrent', 'Magnet.xl',
-                            'Magnet.dn', 'Magnet.tr', 'Magnet.ws', 'Magnet.xs', 'Magnet.as_', 'Magnet.kt', 'Magnet._infohash_hex', 'Magnet.__init__', 'Magnet._has_info'],
+                            'Magnet.dn', 'Magnet.tr', 'Magnet.ws', 'Magnet.xs', 'Magnet.as_', 'Magnet.kt', 'Magnet._infohash_hex', 'Magnet.__init__', 'Magnet._has_info', 'Magnet.x', 'Magnet.xt', 'Magnet.infohash'],
         'torf/_reuse.py': ['find_torrent_files', 'is_file_match', '_get_filepaths_and_sizes', 'is_content_match', 'copy', 'ReuseCallback'],
-        'torf/_errors.py': ['VerifyContentError', 'VerifyFileSizeError', 'ReadError'],
+        'torf/_errors.py': ['VerifyContentError', 'VerifyFileSizeError', 'ReadError', 'TorfError', 'MetainfoError', 'BdecodeError', 'MagnetError', 'URLError',
+                            'WriteError', 'PieceSizeError', 'PathError', 'VerifyIsDirectoryError', 'VerifyNotDirectoryError', 'ConnectionError'],
     }
     for rel, names in targets.items():
         try:
